@@ -2,27 +2,485 @@
 
 package format_test
 
-import (
-	"bytes"
-	"testing"
+// C20 - goctl .api formatter: formatting a valid program succeeds, preserves the API description,
+// is idempotent; scanner and parser report errors for invalid sources instead of crashing.
+//
+//	TestVerifC20Regress*   plain regressions for every shrunk defect found by this check
+//	TestVerifC20Valid      grammar-generated valid programs -> parse/format/parse/format oracle
+//	TestVerifC20Invalid    mutated (mostly invalid) variants -> no panic, no hang; if the parser
+//	                       accepts a mutant, the valid-program oracle applies to it as well
+//	FuzzVerifC20Source     native fuzz target over raw bytes (thorough tier; quick replays seeds)
 
-	"github.com/zeromicro/go-zero/internal/verifkit"
-	"github.com/zeromicro/go-zero/tools/goctl/pkg/parser/api/format"
+import (
+	"fmt"
+	"os"
+	"strings"
+	"testing"
+	"unicode/utf8"
+
 	rapid "github.com/zeromicro/go-zero/internal/verifrapid"
+	"github.com/zeromicro/go-zero/internal/verifkit"
 )
 
-// placeholder smoke test proving the build path for the goctl module; replaced by the real check
-func TestVerifC20Smoke(t *testing.T) {
-	st := verifkit.New("smoke")
-	defer st.Flush()
-	rapid.Check(t, func(t *rapid.T) {
-		st.Eval()
-		name := rapid.StringMatching(`[a-z]{1,6}`).Draw(t, "name")
-		src := "syntax = \"v1\"\n\ntype " + "T" + name + " {\n\tA string `json:\"a\"`\n}\n"
-		var out bytes.Buffer
-		if err := format.Source([]byte(src), &out); err != nil {
-			t.Fatalf("format failed: %v\n%s", err, src)
+// ------------------------------------------------------------------ known findings
+
+// signatures of findings that may be listed as "known" in known_findings.json; inputs matching a
+// listed signature are excluded by construction (counted) so that the search continues past them.
+var knownSignatures = map[string]func(src string) bool{
+	"D8": sigD8,
+}
+
+// sigD8: an http-method word directly followed by a token that ends an (empty) path.
+func sigD8(src string) bool {
+	toks := roughTokens(src)
+	for i := 0; i+1 < len(toks); i++ {
+		if !isMethod(toks[i]) {
+			continue
 		}
-		st.NonTrivial(src)
+		switch toks[i+1] {
+		case "(", "returns", "@doc", "@handler", ";", "}":
+			return true
+		}
+	}
+	return false
+}
+
+func isMethod(s string) bool {
+	for _, m := range httpMethods {
+		if s == m {
+			return true
+		}
+	}
+	return false
+}
+
+// roughTokens splits a source into words and punctuation without using the code under test
+// (comments and strings are not recognised: the signature may over-approximate, never miss).
+func roughTokens(src string) []string {
+	var out []string
+	i := 0
+	for i < len(src) {
+		c := src[i]
+		switch {
+		case c == ' ' || c == '\t' || c == '\n' || c == '\r' || c == '\f' || c == '\v':
+			i++
+		case c == '@' || isWordByte(c):
+			j := i + 1
+			for j < len(src) && isWordByte(src[j]) {
+				j++
+			}
+			out = append(out, src[i:j])
+			i = j
+		default:
+			out = append(out, string(c))
+			i++
+		}
+	}
+	return out
+}
+
+func excludedKnown(known map[string]bool, src string) string {
+	for id, sig := range knownSignatures {
+		if known[id] && sig(src) {
+			return id
+		}
+	}
+	return ""
+}
+
+// ------------------------------------------------------------------ regressions
+
+type regressCase struct {
+	name  string
+	src   string
+	valid bool // the source is expected to parse: the full oracle applies
+}
+
+// Shrunk inputs of the defects this check found on the pinned tree (see FINDINGS.md).
+var regressCases = []regressCase{
+	{"D8-empty-path", "service a { @handler h \n get (Req) }", false},
+	{"D8-empty-path-returns", "service a{@handler h get returns(R)}", false},
+	{"D8-empty-path-brace", "service a{@handler h get}", false},
+}
+
+func TestVerifC20Regress(t *testing.T) {
+	st := verifkit.New("regress")
+	defer st.Flush()
+	known := assumed()
+	for _, rc := range regressCases {
+		rc := rc
+		t.Run(rc.name, func(t *testing.T) {
+			st.Eval()
+			if id := excludedKnown(known, rc.src); id != "" {
+				// listed as known: run it once, report, do not fail
+				if v := checkAny(rc.src, nil); !v.ok {
+					st.KnownFinding(id, fmt.Sprintf("property=C20 %s still fails: %s", rc.name, oneLine(v.detail)))
+				}
+				return
+			}
+			v := checkAny(rc.src, nil)
+			if !v.ok {
+				t.Fatalf("C20 regression %s: clause %q violated: %s\nsource:\n%s", rc.name, v.clause, v.detail, visible(rc.src))
+			}
+			if rc.valid {
+				if r := runParseNorm(rc.src); r.err != nil {
+					t.Fatalf("C20 regression %s: expected to parse, parser says: %v", rc.name, r.err)
+				}
+			}
+			st.NonTrivial(rc.src)
+		})
+	}
+}
+
+func oneLine(s string) string {
+	if i := strings.IndexByte(s, '\n'); i >= 0 {
+		s = s[:i]
+	}
+	if len(s) > 160 {
+		s = s[:160]
+	}
+	return s
+}
+
+// checkAny applies the whole statement to an arbitrary non-empty source: scanner and parser must
+// return (error or result) without panic or hang; if the parser accepts the source it is a
+// syntactically valid program and the formatting clauses apply.
+func checkAny(src string, mustComments []string) verdict {
+	slow := false
+	sc := runScan(src)
+	switch {
+	case sc.hung:
+		return fail("scanner reports errors rather than crashing", "scanner did not return within %v", hardWatchdog)
+	case sc.panicked != "":
+		return fail("scanner reports errors rather than crashing", "scanner panicked: %s", sc.panicked)
+	}
+	slow = slow || sc.slow
+	p := runParseNorm(src)
+	switch {
+	case p.hung:
+		return fail("parser reports errors rather than crashing", "parser did not return within %v", hardWatchdog)
+	case p.panicked != "":
+		return fail("parser reports errors rather than crashing", "parser panicked: %s", p.panicked)
+	}
+	slow = slow || p.slow
+	if p.err != nil {
+		// invalid source: format.Source must report an error too (it runs the same parser)
+		f := runFormat(src)
+		switch {
+		case f.hung:
+			return fail("parser reports errors rather than crashing", "format.Source did not return on an invalid source")
+		case f.panicked != "":
+			return fail("parser reports errors rather than crashing", "format.Source panicked on an invalid source: %s", f.panicked)
+		case f.err == nil:
+			return fail("parser reports errors rather than crashing", "format.Source accepted a source the parser rejects (%v)", p.err)
+		}
+		return verdict{ok: true, slow: slow || f.slow, clause: "rejected"}
+	}
+	v, _ := checkValid(src, p.out, mustComments)
+	v.slow = v.slow || slow
+	return v
+}
+
+// ------------------------------------------------------------------ valid programs
+
+// assumed returns the findings whose signatures are excluded by construction: those listed with
+// status "known" in known_findings.json, plus (development aid) VERIF_C20_ASSUME=id,id,...
+func assumed() map[string]bool {
+	m := verifkit.KnownFindings("C20")
+	for _, id := range strings.Split(os.Getenv("VERIF_C20_ASSUME"), ",") {
+		if id = strings.TrimSpace(id); id != "" {
+			m[id] = true
+		}
+	}
+	return m
+}
+
+func newGen(t *rapid.T, small bool, assume map[string]bool) *gen {
+	g := &gen{t: t, assume: assume}
+	g.noCmt = g.chance(15, "nocomments")
+	g.cmtPct = rapid.SampledFrom([]int{8, 15, 30, 50}).Draw(t, "cmtpct")
+	g.nlPct = rapid.SampledFrom([]int{30, 50, 10, 80}).Draw(t, "nlpct")
+	g.wild = g.chance(15, "wildws")
+	g.noMay = verifkit.EnvInt("c20_nomay", 0) == 1 || g.chance(25, "nomay")
+	if small {
+		g.cmtPct = rapid.SampledFrom([]int{0, 8, 20}).Draw(t, "cmtpct2")
+	}
+	return g
+}
+
+func TestVerifC20Valid(t *testing.T) {
+	st := verifkit.New("valid")
+	defer st.Flush()
+	known := assumed()
+	maxStmts := verifkit.EnvInt("c20_maxstmts", 6)
+	var total, rejected int
+	rapid.Check(t, func(t *rapid.T) {
+		g := newGen(t, false, known)
+		g.program(maxStmts)
+		src := g.source()
+		if src == "" {
+			t.Fatalf("generator produced an empty source")
+		}
+		if id := excludedKnown(known, src); id != "" {
+			st.Excluded()
+			return
+		}
+		st.Eval()
+		total++
+		p := runParseNorm(src)
+		switch {
+		case p.hung:
+			t.Fatalf("C20 clause %q violated: parser did not return within %v on a generated program\n%s", "parser reports errors rather than crashing", hardWatchdog, visible(src))
+		case p.panicked != "":
+			t.Fatalf("C20 clause %q violated: parser panicked on a generated program: %s\n%s", "parser reports errors rather than crashing", p.panicked, visible(src))
+		case p.err != nil:
+			// the generator claims validity by construction; a rejection is a generator defect (or a
+			// parser defect) and is measured, never silently skipped
+			rejected++
+			st.Class("generator-rejected")
+			st.Note("rejected by parser: %v :: %q", p.err, src)
+			return
+		}
+		var must []string
+		nc := 0
+		for _, c := range g.comments {
+			nc++
+			if c.must {
+				must = append(must, c.text)
+			}
+		}
+		v, formatted := checkValid(src, p.out, must)
+		if v.slow {
+			st.Note("slow input (> %v, inconclusive): %q", softWatchdog, src)
+		}
+		if !v.ok {
+			t.Fatalf("C20 clause %q violated: %s\nsource:\n%s", v.clause, v.detail, visible(src))
+		}
+		for k, n := range g.kinds {
+			st.ClassN("stmt-"+k, n)
+		}
+		st.ClassN("comments", nc)
+		st.ClassN("comments-must-survive", len(must))
+		st.ClassN("struct-fields", g.fields)
+		st.ClassN("routes", g.routes)
+		st.ClassN("multi-line-block-comments", g.multiDoc)
+		st.ClassN("constructs-dropped-on-purpose", g.degenerate)
+		if formatted == src {
+			st.Class("already-formatted")
+		}
+		if g.groups > 0 && nc > 0 {
+			st.NonTrivial(src)
+		} else {
+			st.Class("trivial")
+		}
+	})
+	if total >= 50 && rejected*20 > total {
+		t.Fatalf("C20 generator defect: the parser rejected %d of %d generated programs (must stay below 5%%); see notes in the evidence", rejected, total)
+	}
+	st.Note("parser rejected %d of %d generated programs", rejected, total)
+}
+
+// ------------------------------------------------------------------ invalid programs
+
+var mutVocab = []string{"(", ")", "[", "]", "{", "}", ",", ".", "...", ":", ";", "=", "*", "-", "/", "@doc", "@handler", "@server", "@", "@x", "@docs",
+	"interface{}", "interface{", "interface", "any", "map", "returns", "service", "type", "import", "info", "syntax", "get", "post", "delete",
+	"0", "12", "1s", "1m", "1mx", "1µ", "3h2", "5ms7", "\"", "`", "\"abc\"", "`x`", "\"\"", "``", "//", "/*", "*/", "/**", "**/", "/*/", "\x00", "é", "中",
+	"\n", "\r\n", "  ", "foo", "Req", "api", "a-b", "/:id", "$", "#", "\\", "?", "!", "%", "%d"}
+
+var injectBytes = []byte{0, 0xff, 0xc3, '"', '`', '/', '*', '@', '\n', '\r', ' ', 'a', 'Z', '0', '9', '{', '}', '(', ')', '[', ']', ':', ';', '-', '.', ',', '=', '%', '\\', 0x7f, 0xe4}
+
+func tokIndexes(ps []piece) []int {
+	var idx []int
+	for i, p := range ps {
+		if p.isTok {
+			idx = append(idx, i)
+		}
+	}
+	return idx
+}
+
+func join(ps []piece) string {
+	var sb strings.Builder
+	for _, p := range ps {
+		sb.WriteString(p.text)
+	}
+	return sb.String()
+}
+
+// mutate applies 1-3 random mutations to a generated program; ops describes them.
+func mutate(t *rapid.T, ps []piece) (string, []string) {
+	ps = append([]piece(nil), ps...)
+	var ops []string
+	nops := rapid.IntRange(1, 3).Draw(t, "nops")
+	src := ""
+	bytesMode := false
+	for o := 0; o < nops; o++ {
+		idx := tokIndexes(ps)
+		kind := rapid.IntRange(0, 10).Draw(t, "mutkind")
+		if bytesMode && kind < 7 {
+			kind = 7 + kind%3
+		}
+		if len(idx) == 0 && kind < 7 {
+			kind = 7
+		}
+		switch kind {
+		case 0, 1: // delete a run of 1-3 tokens
+			i := rapid.IntRange(0, len(idx)-1).Draw(t, "deli")
+			n := rapid.IntRange(1, 3).Draw(t, "deln")
+			var dropped []string
+			for k := 0; k < n && i+k < len(idx); k++ {
+				dropped = append(dropped, ps[idx[i+k]].text)
+				ps[idx[i+k]] = piece{text: " "}
+			}
+			ops = append(ops, fmt.Sprintf("delete tokens %q", dropped))
+		case 2: // duplicate a token
+			i := idx[rapid.IntRange(0, len(idx)-1).Draw(t, "dupi")]
+			ps = append(ps[:i+1], append([]piece{{text: " "}, ps[i]}, ps[i+1:]...)...)
+			ops = append(ops, fmt.Sprintf("duplicate token %q", ps[i].text))
+		case 3: // swap two tokens
+			a := idx[rapid.IntRange(0, len(idx)-1).Draw(t, "swapa")]
+			b := idx[rapid.IntRange(0, len(idx)-1).Draw(t, "swapb")]
+			ps[a], ps[b] = ps[b], ps[a]
+			ops = append(ops, fmt.Sprintf("swap tokens %q and %q", ps[b].text, ps[a].text))
+		case 4: // replace a token by a vocabulary word
+			i := idx[rapid.IntRange(0, len(idx)-1).Draw(t, "repi")]
+			w := rapid.SampledFrom(mutVocab).Draw(t, "repw")
+			ops = append(ops, fmt.Sprintf("replace token %q by %q", ps[i].text, w))
+			ps[i] = piece{text: w, isTok: true}
+		case 5: // insert a vocabulary word before a token
+			i := idx[rapid.IntRange(0, len(idx)-1).Draw(t, "insi")]
+			w := rapid.SampledFrom(mutVocab).Draw(t, "insw")
+			ps = append(ps[:i], append([]piece{{text: w, isTok: true}, {text: " "}}, ps[i:]...)...)
+			ops = append(ops, fmt.Sprintf("insert %q before token %q", w, ps[i+2].text))
+		case 6: // change the gap before a token: remove it, or turn it into a line break / blank
+			i := idx[rapid.IntRange(0, len(idx)-1).Draw(t, "gapi")]
+			if i > 0 && !ps[i-1].isTok {
+				w := rapid.SampledFrom([]string{"", "\n", " ", "\n\n"}).Draw(t, "gapw")
+				ops = append(ops, fmt.Sprintf("gap %q before token %q becomes %q", ps[i-1].text, ps[i].text, w))
+				ps[i-1] = piece{text: w}
+			} else {
+				ps = append(ps[:i], append([]piece{{text: "\n"}}, ps[i:]...)...)
+				ops = append(ops, fmt.Sprintf("line break before token %q", ps[i+1].text))
+			}
+		default: // byte-level
+			if !bytesMode {
+				src = join(ps)
+				bytesMode = true
+			}
+			if src == "" {
+				src = " "
+			}
+			switch kind {
+			case 7: // truncate
+				n := rapid.IntRange(1, len(src)).Draw(t, "truncn")
+				ops = append(ops, fmt.Sprintf("truncate to %d of %d bytes", n, len(src)))
+				src = src[:n]
+			case 8, 9: // inject bytes
+				at := rapid.IntRange(0, len(src)).Draw(t, "injat")
+				n := rapid.IntRange(1, 3).Draw(t, "injn")
+				var b []byte
+				for k := 0; k < n; k++ {
+					b = append(b, rapid.SampledFrom(injectBytes).Draw(t, "injb"))
+				}
+				ops = append(ops, fmt.Sprintf("inject %q at byte %d", b, at))
+				src = src[:at] + string(b) + src[at:]
+			default: // delete a byte range
+				at := rapid.IntRange(0, len(src)-1).Draw(t, "delat")
+				n := rapid.IntRange(1, 4).Draw(t, "delbn")
+				if at+n > len(src) {
+					n = len(src) - at
+				}
+				ops = append(ops, fmt.Sprintf("delete %d bytes at %d (%q)", n, at, src[at:at+n]))
+				src = src[:at] + src[at+n:]
+			}
+		}
+	}
+	if !bytesMode {
+		src = join(ps)
+	}
+	if src == "" {
+		src = " " // the empty source is outside the domain (log.Fatalln, documented)
+	}
+	return src, ops
+}
+
+func TestVerifC20Invalid(t *testing.T) {
+	st := verifkit.New("invalid")
+	defer st.Flush()
+	known := assumed()
+	rapid.Check(t, func(t *rapid.T) {
+		g := newGen(t, true, known)
+		g.program(3)
+		orig := g.source()
+		src, ops := mutate(t, g.pieces)
+		if id := excludedKnown(known, src); id != "" {
+			st.Excluded()
+			return
+		}
+		st.Eval()
+		v := checkAny(src, nil)
+		if v.slow {
+			st.Note("slow input (> %v, inconclusive): %q", softWatchdog, src)
+		}
+		if !v.ok {
+			t.Fatalf("C20 clause %q violated: %s\nmutations: %s\nsource:\n%s\nunmutated program:\n%s", v.clause, v.detail, strings.Join(ops, "; "), visible(src), visible(orig))
+		}
+		if src == orig {
+			st.Class("mutation-was-a-no-op")
+			return
+		}
+		if !utf8.ValidString(src) {
+			st.Class("mutant-invalid-utf8")
+		}
+		if v.clause == "rejected" {
+			st.Class("mutant-rejected-with-error")
+			st.NonTrivial(src)
+		} else {
+			st.Class("mutant-still-valid")
+		}
+	})
+}
+
+// ------------------------------------------------------------------ native fuzz target
+
+var fuzzSeeds = []string{
+	"syntax = \"v1\"\n",
+	"info(\n\ttitle: \"t\"\n\tdesc: `multi\nline`\n)\n",
+	"import \"a.api\"\nimport (\n\t\"b.api\" // b\n\t\"c.api\"\n)\n",
+	"type (\n\tReq {\n\t\tName string `json:\"name\"` // n\n\t\t*Base\n\t\tInner\n\t\tM map[string][]*Item `json:\"m,optional\"`\n\t\tA, B [3]int\n\t\tC [...]interface{}\n\t\tChild {\n\t\t\tX any\n\t\t} `json:\"child\"`\n\t}\n\tAlias = []Req\n)\n",
+	"@server (\n\tjwt: Auth\n\tprefix: /v1/a-b\n\ttimeout: 3s\n\tmiddleware: A,B\n\tmaxBytes: 1024\n\tsummary: \"x\"\n)\nservice foo-api {\n\t@doc \"d\"\n\t@handler h1\n\tget /a/:id/b-c (Req) returns ([]*Resp);\n\n\t@doc (\n\t\tk: \"v\"\n\t)\n\t@handler h2\n\tpost /x\n}\n",
+	"service a { @handler h \n get /p (Req) }",
+	"/* doc */ type A int // tail\n// eof\n",
+	"type T {}\nservice s {}\n",
+	"@", "\"", "`", "/*", "/**", "//", "@doc", "1m", "3h2x", "interface{", "type A {", "service a{@handler h get /",
+}
+
+func FuzzVerifC20Source(f *testing.F) {
+	st := verifkit.New("fuzz")
+	defer st.Flush()
+	known := assumed()
+	for _, s := range fuzzSeeds {
+		f.Add([]byte(s))
+	}
+	f.Fuzz(func(t *testing.T, data []byte) {
+		if len(data) == 0 || len(data) > 4096 {
+			return // the empty source exits the process (documented, outside the domain)
+		}
+		src := string(data)
+		if id := excludedKnown(known, src); id != "" {
+			st.Excluded()
+			return
+		}
+		st.Eval()
+		v := checkAny(src, nil)
+		if !v.ok {
+			t.Fatalf("C20 clause %q violated: %s\nsource:\n%s", v.clause, v.detail, visible(src))
+		}
+		if v.clause == "rejected" {
+			st.Class("rejected-with-error")
+			st.NonTrivial(src)
+		} else {
+			st.Class("valid")
+		}
 	})
 }
